@@ -352,7 +352,7 @@ func c01Pipeline(c *ctx) {
 			c01Config{"one", []string{"passing", "warning"}, nil},
 			c01Config{"one", []string{"passing"}, []string{"-registry.consul.serviceMonitors", "3"}})
 	}
-	nbar := c.scale(c.pick(150, 800))
+	nbar := c.scale(c.pick(150, 2500))
 	var wg sync.WaitGroup
 	for ci, cf := range cfgs {
 		wg.Add(1)
